@@ -19,8 +19,10 @@ RULE = ("Hypothesis-generated pairs of runs. (perturb) calendar-day crops: a cut
         "and summary rows of seasons harvested before t must be bitwise equal; (pad) every crop: the weather table trimmed exactly "
         "to the window vs. padded with 1-400 extra rows of absurd values before and after -- everything equal; (extend) every crop: "
         "end date extended by 1 day to 3 years over the same weather -- all rows up to the last harvest of the short run and its "
-        "summary rows must be equal. One evaluation per pair. Non-trivial pair: (perturb) the rows from t on do differ, (pad) >0 rows "
-        "added on both sides, (extend) the long run contains more seasons or days than the short one and the short one completed "
+        "summary rows must be equal; (rewindow) every crop: ONE model object run over the window, its start / end dates then moved inwards "
+        "through the setters and run again -- equal to a fresh model for the new window (the first window's records outside the "
+        "new one have no effect). One evaluation per pair. Non-trivial pair: (perturb) the rows from t on do differ, (pad) >0 rows "
+        "added on both sides, (rewindow) both runs completed, (extend) the long run contains more seasons or days than the short one and the short one completed "
         ">=1 season; distinct = (configuration, transformation).")
 ASSUMPTIONS = [
     "SwitchGDD=1 (phenology averaged over the whole window by design) is outside the first clause and is not generated",
@@ -37,7 +39,7 @@ PROFILE_EXT = gen.profile(seasons=(1, 2), max_days=650, p_gdd=0.3, p_custom_soil
 
 @st.composite
 def cases(draw):
-    kind = draw(st.sampled_from(["perturb", "perturb", "pad", "extend"]))
+    kind = draw(st.sampled_from(["perturb", "perturb", "perturb", "pad", "pad", "extend", "extend", "rewindow"]))
     if kind == "perturb":
         cfg = draw(gen.configs(PROFILE_CAL))
         n = (dt.datetime.strptime(cfg["end"], "%Y/%m/%d") - dt.datetime.strptime(cfg["start"], "%Y/%m/%d")).days
@@ -62,7 +64,9 @@ def cases(draw):
             else:
                 spec[c] = [draw(st.sampled_from([0.3, 1.0, 2.0])), float(draw(st.sampled_from([0, 1, 4])))]
         return dict(kind=kind, cfg=cfg, t=t, cols=spec)
-    cfg = draw(gen.configs(PROFILE_ANY if kind == "pad" else PROFILE_EXT))
+    cfg = draw(gen.configs(PROFILE_ANY if kind in ("pad", "rewindow") else PROFILE_EXT))
+    if kind == "rewindow":
+        return dict(kind=kind, cfg=cfg, shift=draw(st.one_of(st.integers(1, 40), st.integers(41, 500))), late_end=draw(st.integers(0, 60)))
     if kind == "pad":
         return dict(kind=kind, cfg=cfg, before=draw(st.integers(1, 400)), after=draw(st.integers(1, 400)),
                     value=float(draw(st.sampled_from([99.0, -50.0, 1e5]))))
@@ -134,6 +138,56 @@ def evaluate(case):
         res.nontrivial = True
         if cfg["crop"]["name"] in gen.GDD_CROPS:
             res.labels.add("thermal")
+        return res
+    if kind == "rewindow":
+        # the SAME model object is run over the full window and then, after moving its start (and end) date inwards
+        # through the documented setters, run again: the records of the first window that now lie outside the new one
+        # must have no effect -- the second run equals a fresh model for the new window
+        from aquacrop import AquaCropModel
+
+        from ..config import build
+        from ..observe import classify_rejection, init_guard, outputs_of
+        from .common import is_F16c
+
+        new_start = start + dt.timedelta(days=int(case["shift"]))
+        new_end = end - dt.timedelta(days=int(case.get("late_end", 0)))
+        res.sample.update(shift=case["shift"], late_end=case.get("late_end", 0))
+        if (new_end - new_start).days < 20:
+            res.labels.add("rewindow_too_short")
+            return res
+        if (cfg.get("gw") or {}).get("method") == "Variable":
+            # interpolated water-table observations must bracket the window: moving the start would make the input invalid
+            res.labels.add("rewindow_skipped_interpolated_table")
+            return res
+        c2 = copy.deepcopy(cfg)
+        c2["start"], c2["end"] = new_start.strftime("%Y/%m/%d"), new_end.strftime("%Y/%m/%d")
+        fresh, info = run_or_classify(c2)
+        if fresh is None:
+            return note_base_failure(res, info)
+        try:
+            m = AquaCropModel(**build(cfg))
+            with init_guard():
+                m._initialize()
+            m.run_model(till_termination=True, initialize_model=False)
+        except Exception as e:
+            if classify_rejection(e) or is_F16c(e):
+                res.outcome = "rejected"
+                res.labels.add("first_window_rejected")
+                return res
+            raise
+        try:
+            m.sim_start_time = c2["start"]
+            m.sim_end_time = c2["end"]
+            m.run_model(till_termination=True)
+        except Exception as e:
+            res.fail("rewindow_raises", "the model run over %s..%s and then, after moving its dates to %s..%s, run again raises %s: %s (a fresh model for that window runs)" % (
+                cfg["start"], cfg["end"], c2["start"], c2["end"], type(e).__name__, str(e)[:120]))
+            return res
+        d = compare_outputs(outputs_of(m), fresh)
+        if d:
+            res.fail("records_outside_new_window_matter", "model run over %s..%s, dates then moved to %s..%s and run again: differs from a fresh model for that window: %s" % (
+                cfg["start"], cfg["end"], c2["start"], c2["end"], d))
+        res.nontrivial = True
         return res
     # ---- extend ------------------------------------------------------------------------------------------
     extra = int(case["extra_days"])
